@@ -65,6 +65,22 @@ Example integral_float_inside_container :
   = RbBinding (bytes_of_string "a") (VArr [VInt 1; VMap [(VInt 2, VInt 1)]]).
 Proof. vm_compute. reflexivity. Qed.
 
+(* the full claim (every well-formed data value) is false of the faithful model *)
+Definition roundtrip_all_data : Prop :=
+  forall k v, good_name k = true -> all_data v = true -> read_back dec_conv (save_line k v) = Some (k, v).
+
+Lemma roundtrip_all_data_refuted_integral_float : ~ roundtrip_all_data.
+Proof. intro H. specialize (H [120] one_float eq_refl eq_refl). vm_compute in H. discriminate. Qed.
+
+Lemma roundtrip_all_data_refuted_min_int : ~ roundtrip_all_data.
+Proof. intro H. specialize (H [121] min_int eq_refl eq_refl). vm_compute in H. discriminate. Qed.
+
+Lemma refutation_witnesses :
+  read_back_dec (save_line [120] one_float) = RbBinding [120] (VInt 1) /\
+  read_back_dec (save_line [120] neg_zero) = RbBinding [120] (VInt 0) /\
+  read_back_dec (save_line [121] min_int) = RbBinding [121] (VFloat (FFin true 4503599627370496 11)).
+Proof. repeat split; vm_compute; reflexivity. Qed.
+
 (* ---- functions: saved text and whether it reads back as the same function *)
 Local Open Scope string_scope.
 Definition tk (ty : Z) (s : string) : tok := mkTok ty (bytes_of_string s).
@@ -86,8 +102,8 @@ Definition changes (r : rt_result * option bytes) (text : string) : bool :=
   | _ => false
   end.
 
-(* repaired by 19eaa9a / a78b0ab: these single-statement lambda bodies are printed with braces *)
-Example lambda_low_precedence_body_fixed :
+(* repaired by 19eaa9a / a78b0ab: these single-statement lambda bodies are printed with braces; x=>x==1 is not *)
+Definition function_fixed_cases : bool :=
   is_same (fr None [] (body1 (infix token_OR "||" (id_ "a") (id_ "b")))) "()=>{a||b}" &&
   is_same (fr None [] (body1 (infix token_ASSIGN "=" (id_ "a") (Some (NInt (tk token_INT "3") 3))))) "()=>{a=3}" &&
   is_same (fr None [] (body1 (infix token_AND "&&" (id_ "a") (id_ "b")))) "()=>{a&&b}" &&
@@ -96,24 +112,23 @@ Example lambda_low_precedence_body_fixed :
   is_same (fr None ["x"] (body1 (infix token_EQ "==" (id_ "x") (Some (NInt (tk token_INT "1") 1))))) "x=>x==1" &&
   is_same (fr None ["a"] (body1 (Some (NCall (tk token_LPAREN "(")
              (Some (NMap (tk token_LBRACE "{") [(id_ "y", Some (NBool (tk token_FALSE "false") false))])) (Some [])))))
-          "a=>{{y:false}()}" = true.
-Proof. vm_compute. reflexivity. Qed.
-
-(* a named function and a function with several statements *)
-Example named_function_roundtrip :
+          "a=>{{y:false}()}" &&
+  (* a named function with two statements *)
   is_same (fr (Some "g") ["a"; "b"] (Some (NStmts [infix token_ASSIGN "=" (id_ "y") (id_ "a"); infix token_ASTERISK "*" (id_ "y") (id_ "b")])))
-          "func g(a,b){y=a y*b}" = true.
+          "func g(a,b){y=a y*b}".
+
+Example function_fixed_cases_ok : function_fixed_cases = true.
 Proof. vm_compute. reflexivity. Qed.
 
-(* recorded findings inherited from the formatter (C02), in the compact form used by save *)
-Example function_finding_plus_in_plus :
+(* recorded findings inherited from the formatter (C02), in the compact form used by save: the saved text does
+   not read back as the same function *)
+Definition function_finding_cases : bool :=
   changes (fr None ["a"; "b"; "c"] (body1 (infix token_PLUS "+" (id_ "a") (infix token_PLUS "+" (id_ "b") (id_ "c")))))
-          "(a,b,c)=>a+b+c" = true.
-Proof. vm_compute. reflexivity. Qed.
-
-Example function_finding_prefix_statement :
+          "(a,b,c)=>a+b+c" &&
   changes (fr (Some "f") ["a"; "b"] (Some (NStmts [id_ "a"; Some (NPrefix (tk token_MINUS "-") (id_ "b"))])))
-          "func f(a,b){a -b}" = true.
+          "func f(a,b){a -b}".
+
+Example function_finding_cases_ok : function_finding_cases = true.
 Proof. vm_compute. reflexivity. Qed.
 
 (* ---- SaveGlobals on a small environment: sorted, constants-and-extras skipped, limit skips whole bindings *)
@@ -132,7 +147,7 @@ Definition text_of (r : option (bytes * nat)) : option (string * nat) :=
   | None => None
   end.
 
-Example save_globals_small :
+Definition save_globals_small : Prop :=
   text_of (save_globals 0 [bytes_of_string "PI"; bytes_of_string "E"] env1)
   = Some ("TEN=10
 a=[1,0.5]
@@ -147,4 +162,6 @@ a=[1,0.5]
 func g(a){a}
 z=5
 "%string, 4%nat).
+
+Example save_globals_small_ok : save_globals_small.
 Proof. split; vm_compute; reflexivity. Qed.
